@@ -366,8 +366,14 @@ def worker(args):
                               json.dumps({n: fresh[n][:200] for n in names})[:900])
         # ---- truly fresh interpreters for a sample
         sample = rng.sample(sorted(fresh), min(args.get("fresh_samples", 6), len(fresh)))
-        for n in sample:
-            code = ("import json,sys\nsys.path.append(%r)\nimport spil\nfrom lib import c13calls\nc13calls.CTX.update(%r)\n"
+        mods = sorted(set(lab.conf.path_configs.values()))
+        for k_, n in enumerate(sample):
+            # (every other fresh interpreter has imported the configuration modules of the path configurations BEFORE spil: a process
+            #  that looked at its configuration first must get the same answers)
+            pre = ("import importlib\n" + "".join("importlib.import_module(%r)\n" % m_ for m_ in (mods if k_ % 4 == 1 else list(reversed(mods))))) if k_ % 2 else ""
+            if pre:
+                rec.count("true_fresh_config_modules_imported_first")
+            code = (pre + "import json,sys\nsys.path.append(%r)\nimport spil\nfrom lib import c13calls\nc13calls.CTX.update(%r)\n"
                     "print('RESULT'+json.dumps(c13calls.exec_call(%r), default=str))" % (
                         os.path.dirname(os.path.dirname(os.path.abspath(__file__))), {"list": shuffled(sorted(lab.exists[lab.default_config])), "leaves": shuffled(sorted(ents))}, byname[n]["spec"]))
             p = subprocess.run([sys.executable, "-c", code], stdout=subprocess.PIPE, stderr=subprocess.PIPE, timeout=120, env=env)
@@ -378,7 +384,8 @@ def worker(args):
             rec.count("true_fresh")
             tf = norm(json.loads(lines[0][6:]))
             if tf != fresh[n]:
-                rec.violation("fork_server_differs_from_fresh_interpreter", {"call": n, "history": []}, "%s vs %s" % (tf[:300], fresh[n][:300]))
+                rec.violation("fork_server_differs_from_fresh_interpreter", {"call": n, "history": [], "config_modules_first": bool(pre)},
+                              "%s vs %s" % (tf[:300], fresh[n][:300]))
         # ---- which questions does each data change affect ? (fresh children on the changed state)
         state_fresh = {(): fresh}
         affected = {}
